@@ -23,6 +23,9 @@ def judge_query(stats: Stats, ast, doc, text, origin, known_quirks=(), extra=Non
     if "membership.unjudged" in ctx.events:
         stats.excluded["membership the documentation leaves undefined"] += 1
         return None, ctx
+    if "regex.unjudged" in ctx.events:
+        stats.excluded["regular expression outside the dialect shared by I-Regexp and Python re"] += 1
+        return None, ctx
     kind, res = lib.find(text, doc, env=env, filter_context=extra)
     if kind == "err":
         if isinstance(res, lib.JSONPathError):
